@@ -56,6 +56,9 @@ def oracle_bands(rows, n, kind='plain', cols=3):
         data = img
         if kind == 'cube':
             data = img[None, :, :]
+        if kind == 'cube4':
+            # (stokes, channel, row, col) with three channels; channel 1 is asked for
+            data = np.stack([img + 1000 * k for k in range(3)])[None].astype(np.float32)
         if kind == 'scaled':
             hdr['BSCALE'] = 0.5      # stored values are physical / 0.5
         fn = os.path.join(d, 'a.fits')
@@ -77,10 +80,15 @@ def oracle_bands(rows, n, kind='plain', cols=3):
         nxt = 0
         for i in range(n):
             try:
-                bd, bh = ft.load_image_band(fn, band=(i, n))
+                bd, bh = ft.load_image_band(fn, band=(i, n), cube_index=1) if kind == 'cube4' else ft.load_image_band(fn, band=(i, n))
             except Exception as e:
                 return True, 'raises', 'band (%d,%d) of %d rows: %r' % (i, n, rows, e)
-            bd = np.squeeze(np.array(bd))
+            bd = np.array(bd)
+            if kind == 'cube4':
+                if bd.ndim != 2 or bd.shape[1] != cols:
+                    return True, 'band-shape-' + kind, 'band (%d,%d) of a (1,3,%d,%d) file comes back with shape %s' % (i, n, rows, cols, bd.shape)
+                bd = bd - 1000
+            bd = np.squeeze(bd)
             if bd.ndim == 1:
                 bd = bd.reshape(-1, cols) if bd.size else bd.reshape(0, cols)
             h = bd.shape[0]
@@ -325,11 +333,254 @@ def k_validate(rep, seed):
     rep.end_kernel()
 
 
+# ------------------------------------------------------------------------------------------------
+# K-exec: the whole real load_image_band on a symbolic FITS file
+# ------------------------------------------------------------------------------------------------
+class Axis:
+    def __init__(self, kind, lo, hi):
+        self.kind, self.lo, self.hi = kind, lo, hi
+
+    def length(self):
+        return self.hi - self.lo
+
+
+class SArr:
+    """a view into the file's pixel array: which index range of which file axis each of its axes covers, which file axes
+    were fixed by an integer index, and the factors it was multiplied by"""
+    def __init__(self, axes, fixed=None, scaled=None):
+        self.axes, self.fixed, self.scaled = list(axes), dict(fixed or {}), list(scaled or [])
+
+    @property
+    def shape(self):
+        return tuple(a.length() for a in self.axes)
+
+    @property
+    def ndim(self):
+        return len(self.axes)
+
+    def _bound(self, v, ax, default):
+        if v is None:
+            return default
+        if isinstance(v, SN):
+            neg = v < 0
+            if bool(neg):
+                raise core.Unsupported('negative slice bound')
+        elif v < 0:
+            raise core.Unsupported('negative slice bound')
+        return core.sym_min(ax.lo + v, ax.hi)        # python slicing clamps to the axis length
+
+    def __getitem__(self, key):
+        key = key if isinstance(key, tuple) else (key,)
+        if any(k is Ellipsis for k in key):
+            raise core.Unsupported('ellipsis index')
+        key = key + (slice(None),) * (len(self.axes) - len(key))
+        if len(key) != len(self.axes):
+            raise IndexError('too many indices for array: array is %d-dimensional, but %d were indexed' % (len(self.axes), len(key)))
+        axes, fixed = [], dict(self.fixed)
+        for k, ax in zip(key, self.axes):
+            if isinstance(k, slice):
+                if k.step not in (None, 1):
+                    raise core.Unsupported('slice step')
+                axes.append(Axis(ax.kind, self._bound(k.start, ax, ax.lo), self._bound(k.stop, ax, ax.hi)))
+            else:
+                inr = (k >= 0) & (k < ax.length()) if isinstance(k, SN) or isinstance(ax.length(), SN) else (0 <= k < ax.length())
+                if not bool(inr):
+                    raise IndexError('index %s is out of bounds for axis with size %s' % (k, ax.length()))
+                fixed[ax.kind] = ax.lo + k
+        return SArr(axes, fixed, self.scaled)
+
+    def __imul__(self, o):
+        self.scaled = self.scaled + [o]
+        return self
+
+    def __mul__(self, o):
+        return SArr(self.axes, self.fixed, self.scaled + [o])
+    __rmul__ = __mul__
+
+    def copy(self):
+        return SArr(self.axes, self.fixed, self.scaled)
+
+    def astype(self, *a, **k):
+        return self
+
+
+class ExecNP(loader.NPProxy):
+    def squeeze(self, a, axis=None):
+        if not isinstance(a, SArr):
+            return loader.real_np.squeeze(a) if axis is None else loader.real_np.squeeze(a, axis)
+        keep, fixed = [], dict(a.fixed)
+        for ax in a.axes:
+            ln = ax.length()
+            one = (ln == 1) if isinstance(ln, SN) else (ln == 1)
+            if bool(one):
+                fixed.setdefault(ax.kind, ax.lo)
+            else:
+                keep.append(ax)
+        return SArr(keep, fixed, a.scaled)
+
+    def array(self, a, *args, **kw):
+        return a if isinstance(a, SArr) else loader.NPProxy.array(self, a, *args, **kw)
+    asarray = array
+
+
+KINDS = ('plain', 'cube', 'cube4', 'scaled', 'compressed')
+
+
+def h_exec(ft, kind, n, bands):
+    """bands: list of band numbers to load in this path (each through the whole real function, from a fresh header)"""
+    def h(c):
+        H, W, NC = core.integer('H'), core.integer('W'), core.integer('NC')
+        for v, hi in ((H, 20000), (W, 8), (NC, 4)):
+            c.assume(v.e >= 1)
+            c.assume(v.e <= hi)
+        ci = core.integer('cube_index') if kind in ('cube', 'cube4') else 0
+        if kind in ('cube', 'cube4'):
+            c.assume(z3.And(ci.e >= 0, ci.e < NC.e))
+        naxis = {'plain': 2, 'scaled': 2, 'compressed': 2, 'cube': 3, 'cube4': 4}[kind]
+        base = {'NAXIS': naxis, 'NAXIS1': W, 'NAXIS2': H, 'CRPIX1': core.real('CRPIX1'), 'CRPIX2': core.real('CRPIX2'), 'CDELT1': core.real('CDELT1'), 'CDELT2': core.real('CDELT2'),
+                'CRVAL1': core.real('CRVAL1'), 'CRVAL2': core.real('CRVAL2'), 'CTYPE1': 'RA---SIN', 'CTYPE2': 'DEC--SIN'}
+        if naxis >= 3:
+            base['NAXIS3'] = NC
+        if naxis == 4:
+            base['NAXIS4'] = 1
+        if kind == 'scaled':
+            base['BSCALE'] = core.real('BSCALE')
+        filehdr = dict(base)
+        if kind == 'compressed':
+            # what is on disk is the compressed grid; expand() hands back the full-size image and header
+            filehdr.update({'BN_CFAC': 2, 'BN_NPX1': W, 'BN_NPX2': H, 'BN_RPX1': 0, 'BN_RPX2': 0, 'NAXIS1': core.integer('Wc'), 'NAXIS2': core.integer('Hc')})
+
+        def full():
+            ax = [Axis('row', 0, H), Axis('col', 0, W)]
+            if naxis >= 3:
+                ax = [Axis('chan', 0, NC)] + ax
+            if naxis == 4:
+                ax = [Axis('stokes', 0, 1)] + ax
+            return SArr(ax)
+
+        class HDU:
+            def __init__(self, header, expanded=False):
+                self.header = header
+                self.data = full() if (expanded or kind != 'compressed') else SArr([Axis('crow', 0, filehdr['NAXIS2']), Axis('ccol', 0, filehdr['NAXIS1'])])
+                self.section = self.data
+
+        class HL(list):
+            def __enter__(self):
+                return self
+
+            def __exit__(self, *a):
+                return False
+
+            def close(self):
+                pass
+
+        class Fits:
+            @staticmethod
+            def getheader(fn, *a, **k):
+                return dict(filehdr)
+
+            @staticmethod
+            def open(fn, *a, **k):
+                return HL([HDU(dict(filehdr))])
+        ft.fits = Fits
+        ft.expand = lambda datafile, outfile=None: HL([HDU(dict(base), expanded=True)])
+        got = []
+        L = core.lift
+        for i in bands:
+            tag = 'load_image_band[%s,band (%d,%d)]' % (kind, i, n)
+            try:
+                out = ft.load_image_band('f.fits', band=(i, n), cube_index=ci) if kind in ('cube', 'cube4') else ft.load_image_band('f.fits', band=(i, n))
+            except (core.Unsupported, core.HarnessError, core.Cut, core.Infeasible):
+                raise
+            except Exception as e:
+                c.oblige(tag + ':a valid band loads without error', z3.BoolVal(False), info=repr(e)[:200])
+                return dict(raised=repr(e)[:200])
+            ok = isinstance(out, tuple) and len(out) == 2 and isinstance(out[0], SArr)
+            c.oblige(tag + ':returns (pixels, header)', z3.BoolVal(ok))
+            if not ok:
+                return dict()
+            data, oh = out
+            kinds = [a.kind for a in data.axes]
+            c.oblige(tag + ':pixels are a 2-D (rows, columns) array of the image plane', z3.BoolVal(kinds == ['row', 'col']), info=str(kinds))
+            if kinds != ['row', 'col']:
+                return dict(kinds=kinds)
+            lo, hi = data.axes[0].lo, data.axes[0].hi
+            c.oblige(tag + ':all columns', z3.And(L(data.axes[1].lo) == 0, L(data.axes[1].hi) == W.e))
+            c.oblige(tag + ':rows within the image', z3.And(L(lo) >= 0, L(lo) <= L(hi), L(hi) <= H.e))
+            if naxis >= 3:
+                c.oblige(tag + ':the requested plane of the cube', z3.BoolVal('chan' in data.fixed) if 'chan' not in data.fixed else L(data.fixed['chan']) == L(ci))
+            if kind == 'scaled':
+                c.oblige(tag + ':stored values multiplied by BSCALE exactly once', z3.BoolVal(len(data.scaled) == 1 and data.scaled[0] is base['BSCALE']))
+            else:
+                c.oblige(tag + ':pixels not rescaled', z3.BoolVal(not data.scaled))
+            c.oblige(tag + ':header NAXIS2 == band height and NAXIS1 == width', z3.And(L(oh['NAXIS2']) == L(hi) - L(lo), L(oh['NAXIS1']) == W.e))
+            c.oblige(tag + ':header CRPIX2 shifted by the first row of the band', L(oh['CRPIX2']) == base['CRPIX2'].e - L(lo))
+            same = [k for k in ('CRPIX1', 'CDELT1', 'CDELT2', 'CRVAL1', 'CRVAL2') if k in oh]
+            c.oblige(tag + ':other WCS keywords untouched', z3.And([z3.BoolVal(len(same) == 5)] + [L(oh[k]) == L(base[k]) for k in same] + [z3.BoolVal(oh.get('CTYPE1') == 'RA---SIN' and oh.get('CTYPE2') == 'DEC--SIN')]))
+            got.append((i, lo, hi))
+        for (i, lo, hi), (j, lo2, hi2) in zip(got, got[1:]):
+            c.oblige('load_image_band[%s,n=%d]:band %d starts where band %d ends' % (kind, n, j, i), L(hi) == L(lo2))
+        for (i, lo, hi) in got:
+            if i == 0:
+                c.oblige('load_image_band[%s,n=%d]:band 0 starts at row 0' % (kind, n), L(lo) == 0)
+            if i == n - 1:
+                c.oblige('load_image_band[%s,n=%d]:the last band ends at the last row' % (kind, n), L(hi) == H.e)
+        return dict(kind=kind, n=n, bands=bands)
+    return h
+
+
+def k_exec(rep, thorough):
+    ns = list(range(1, 9)) + ([12, 16, 31, 49, 64] if thorough else [])
+    rep.kernel('K-exec', functions=[F + ':load_image_band', F + ':is_compressed'],
+               bounds='the WHOLE function on a symbolic file: rows 1..20000, columns 1..8, channels 1..4 and cube index symbolic integers; band counts n in %s with every band number (pairs of adjacent bands in one path); plain / 3-D / 4-D / BSCALE / compressed files' % ns,
+               stubs=['astropy fits.getheader / fits.open / .section -> header dict and a view object that records which index range of which file axis every axis covers (python slice clamping, integer indexing, np.squeeze with a case split on length == 1)',
+                      'expand() -> full-size image and header (contract: the header it returns describes the expanded image)'],
+               assumes=['python integers (no float rounding here: K-rows decides the arithmetic bit-precisely)'], outside=['pixel values (views only)', 'more than 8 bands in the quick tier'])
+    ft = loader.load_private(['fits_tools'])['fits_tools']
+    loader.patch(ft, np=ExecNP())
+    plans, meta = [], []
+    for kind in KINDS:
+        for n in ns:
+            groups = [[i, i + 1] for i in range(0, n - 1)] or [[0]]
+            if n > 8:
+                groups = [[0, 1], [n // 2, n // 2 + 1], [n - 2, n - 1]]
+            for g in groups:
+                plans.append((h_exec(ft, kind, n, g), dict(wall_s=300)))
+                meta.append((kind, n))
+    done = set()
+    for (kind, n), (st, res) in zip(meta, core.explore_many(plans, workers=16)):
+        rep.stats(st)
+        for r in res:
+            for ob in r['obligations']:
+                rep.count(ob['result'], ob['name'])
+                if ob['result'] == 'sat' and (kind, ob['name'].split(':')[-1]) not in done:
+                    m = ob.get('model') or {}
+                    rows = int(m.get('H', 7) or 7)
+                    cols = int(m.get('W', 3) or 3)
+                    cands = [(rows, n, cols)] + [(r_, n, c_) for r_, c_ in ((7, 3), (n, 3), (n + 1, 5), (9, 2))]
+                    bad = cls = detail = None
+                    for r_, n_, c_ in cands:
+                        c_ = max(2, c_)
+                        try:
+                            bad, cls, detail = oracle_bands(r_, n_, kind, cols=c_)
+                        except Exception as e:          # e.g. compress() itself refuses a degenerate image: not this property
+                            bad, cls, detail = False, None, 'oracle not applicable: %r' % (e,)
+                        if bad:
+                            rows, cols = r_, c_
+                            break
+                    if rep.finding('C20/K-exec/%s' % (cls or ob['name'].split(':')[-1]), dict(kind='bands', rows=rows, n=n, filekind=kind, cols=cols), detail or ob['name'], reproduced=bool(bad)) != 'not-reproduced':
+                        done.add((kind, ob['name'].split(':')[-1]))
+        if res and n in (1, 3, 8):
+            rep.sample(dict(kernel='K-exec', kind=kind, n=n, paths=st.paths, obligations=[(o['name'].split(':')[-1], o['result']) for o in res[0]['obligations']][:6]))
+    rep.end_kernel()
+
+
 def run(rep):
     rep.assume('slices are regenerated from the working tree by anchors (names), never line numbers')
     k_valid(rep)
     k_rows(rep, rep.tier)
     k_header(rep)
+    k_exec(rep, rep.tier == 'thorough')
     k_validate(rep, rep.seed)
     rep.not_decided += ['pixel equality through astropy section[] / BSCALE scaling (concrete replay only)', '4-D files beyond the slice plumbing']
 
@@ -339,7 +590,7 @@ def replay(w):
     if wit.get('kind') == 'invalid':
         bad, cls, detail = oracle_invalid(int(wit['i']), int(wit['n']))
     else:
-        bad, cls, detail = oracle_bands(int(wit['rows']), int(wit['n']), wit.get('filekind', 'plain'))
+        bad, cls, detail = oracle_bands(int(wit['rows']), int(wit['n']), wit.get('filekind', 'plain'), cols=int(wit.get('cols', 3)))
     return bad, '%s: %s' % (cls, detail)
 
 
